@@ -11,7 +11,7 @@ type I<'a> = &'a [u8];
 type XC<'a> = extra::Full<Cheap, (), u8>;
 type X0<'a> = extra::Err<Cheap>;
 
-/// @harness props=C15:Q,C20:T n=4 err=Cheap
+/// @harness props=C15:Q,C04:Q,C20:T n=4 err=Cheap
 /// @shape n:any then_with_ctx ( t0.repeated().configure(exactly(n & 3)) ) collected / used as a unit parser (to_slice) — symbolic choice
 /// @symbolic t0: u8; as_unit: bool
 /// @aims repeated().configure(exactly(n)) from context == statically configured exactly(n), in the collecting AND in the plain-parser (Check) path
@@ -79,7 +79,7 @@ pub fn c15_static_cap_body<S: Src>(s: &mut S) {
     cover!("cover:reject", !r.has_output());
 }
 
-/// @harness props=C15:Q,C20:T n=3 err=Cheap
+/// @harness props=C15:Q,C04:Q,C20:T n=3 err=Cheap
 /// @shape d:any ignore_with_ctx ( any then just(0).configure(seq = ctx) ), the configured `just` used by VALUE and by REFERENCE, parse() and check()
 /// @symbolic by_ref: bool
 /// @aims just(..).configure(seq) from context == static just(d), also through the `&P` forwarding impl and in check mode
@@ -173,7 +173,61 @@ pub fn c15_try_configure_body<S: Src>(s: &mut S) {
     cover!("cover:refused", r.output().map(|o| o.0 == 2 && o.1 >= 3).unwrap_or(false));
 }
 
+/// @harness props=C15:Q,C02:Q,C20:T n=4 err=Cheap timeout=900
+/// @shape n:any then_with_ctx ( t0.repeated().at_least(lo).at_most(hi).configure(MODE(n & 3)) then any* ), MODE in {nothing, at_least, at_most, exactly}; collected / unit parser
+/// @symbolic t0: u8; lo, hi in 0..=3; mode in 0..=3; as_unit: bool
+/// @assume effective at_least <= effective at_most (the inverted interval is known finding F4)
+/// @aims a configuration REPLACES exactly the bounds it sets and keeps the statically configured ones it does not set (at_least as well as at_most), in the collecting and in the unit-parser path
+pub fn c15_cfg_partial_body<S: Src>(s: &mut S) {
+    let t0 = s.u8();
+    let lo = s.upto(3) as usize;
+    let hi = s.upto(3) as usize;
+    let mode = s.upto(3);
+    let as_unit = s.bool();
+    let inp = Inp::<4>::any(s);
+    let x = inp.get();
+    let k = if x.is_empty() { 0 } else { (x[0] & 3) as usize };
+    let (elo, ehi) = match mode {
+        0 => (lo, hi),
+        1 => (k, hi),
+        2 => (lo, k),
+        _ => (k, k),
+    };
+    crate::sym::assume(lo <= hi && elo <= ehi);
+    let rep = just::<u8, I, XC>(t0).repeated().at_least(lo).at_most(hi).configure(move |c, n: &u8| {
+        let k = (*n & 3) as usize;
+        match mode {
+            0 => c,
+            1 => c.at_least(k),
+            2 => c.at_most(k),
+            _ => c.exactly(k),
+        }
+    });
+    let rest = any::<I, XC>().repeated().count();
+    let r = if as_unit {
+        any::<I, X0>().then_with_ctx(rep.to_slice().map(|s: &[u8]| s.len()).then(rest)).parse(x)
+    } else {
+        any::<I, X0>().then_with_ctx(rep.collect::<Vec<u8>>().map(|v: Vec<u8>| v.len()).then(rest)).parse(x)
+    };
+    contract(&r);
+    let mut lead = 0;
+    while 1 + lead < x.len() && x[1 + lead] == t0 {
+        lead += 1;
+    }
+    let taken = if lead > ehi { ehi } else { lead };
+    let want = !x.is_empty() && taken >= elo;
+    check!("C15:configured-bounds-acceptance", r.has_output() == want);
+    if let Some((_, (cnt, rest))) = r.output() {
+        check!("C15:configured-bounds-count", *cnt == taken);
+        check!("C15:configured-bounds-remainder", 1 + *cnt + *rest == x.len());
+    }
+    cover!("cover:static-at_least-decides", !r.has_output() && mode == 2 && lead < lo && !x.is_empty());
+    cover!("cover:configured-at_most-above-static", r.has_output() && mode == 2 && k > hi && lead > hi);
+    cover!("cover:unit-path-configured", r.has_output() && as_unit && mode == 3 && k == 2);
+}
+
 crate::harnesses! {
+    c15_cfg_partial [8] = c15_cfg_partial_body;
     c15_length_prefixed [7] = c15_length_prefixed_body;
     c15_static_cap [7] = c15_static_cap_body;
     c15_delimiter_echo [6] = c15_delimiter_echo_body;
